@@ -460,9 +460,14 @@ static int extract_archived_file(LHAReader *reader,
 		return 1;
 	}
 
-	// Create parent directories for file:
+	// Create parent directories for file. An entry that is presented
+	// for a second time (a directory whose metadata is now set, a
+	// deferred symbolic link) was extracted before, so its parents
+	// exist; by now one of them may be a symbolic link leading out of
+	// the extraction directory, and must not be walked through.
 
-	if (!make_parent_directories(filename)) {
+	if (!lha_reader_current_is_fake(reader)
+	 && !make_parent_directories(filename)) {
 		free(filename);
 		return 0;
 	}
